@@ -29,7 +29,8 @@ from ..drivers import blob_scripts as bs
 SPEC = 'MCZBlob'
 DESIGN_INV = ['TypeOK', 'NoViolation', 'UncommittedInvisible', 'SnapshotsReadable', 'NothingLeftBehind', 'DerivedExact']
 DESIGN_PROPS = ['CommittedFilesImmutable', 'PackRemovesExactly']
-REPAIRED = dict(AbortNeedsVote=False, NonUndoPack=False, SpbPerSerial=False)
+REPAIRED = dict(AbortNeedsVote=False, NonUndoPack=False, SpbPerSerial=False, ForeignAbortCleans=False, LateBookkeeping=False,
+                CopyFailUntracked=False)
 FLAVOURS = ('mixin', 'wrapmap', 'wrapfile')
 UNDO = ('mixin', 'wrapfile')          # flavours with DB.undo; 'wrapfile' has no pack in the model
 
@@ -38,13 +39,27 @@ DEVIATIONS = {
     'AbortNeedsVote': ('F4', ('mixin',), 'NextTxn', dict(NBlob=1, Atoms=('a',), MaxTid=4, MaxSp=1), 'NoFileOfAbortedTxn'),
     'NonUndoPack': ('F15', ('wrapmap',), 'NextHist', dict(NBlob=1, Atoms=('a',), MaxTid=5, MaxSp=1), 'NoMissingFile'),
     'SpbPerSerial': ('F3', FLAVOURS, 'NextTxn', dict(NBlob=1, Atoms=('a',), MaxTid=3, MaxSp=2), 'BytesAsWritten'),
+    # BlobStorage (the wrapper): tpc_abort(foreign transaction) cleans all the same; dirty_oids handled after the
+    # commit lock was released; a failing blob copy in undo() is not listed
+    'ForeignAbortCleans': ('foreign-abort', ('wrapmap', 'wrapfile'), 'NextRace', dict(NBlob=1, Atoms=('a',), MaxTid=4, MaxSp=1), 'NoViolation'),
+    'LateBookkeeping': ('late-bookkeeping', ('wrapmap', 'wrapfile'), 'NextRace', dict(NBlob=1, Atoms=('a',), MaxTid=5, MaxSp=1), 'NoViolation'),
+    'CopyFailUntracked': ('failed-undo-copy', ('wrapfile',), 'NextRace', dict(NBlob=1, Atoms=('a',), MaxTid=5, MaxSp=1), 'NoViolation'),
 }
+WRAPPERS = ('wrapmap', 'wrapfile')
+WRONG = ('store', 'storeBlob', 'tpc_vote', 'tpc_finish', 'tpc_abort')
 TEXT = {
     'file-of-aborted-transaction': 'a *.blob file of an aborted transaction remains in the blob directory',
     'revision-without-file': 'a committed blob revision has no blob file (reading it in its snapshot fails)',
     'file-of-removed-revision': 'a *.blob file remains whose revision the pack removed',
     'bytes-differ-from-written': 'the committed blob file does not hold the bytes the application had written',
     'committed-file-writable': 'a committed blob file has a write-permission bit',
+    'file-removed-by-foreign-abort': 'tpc_abort(a transaction that is not being committed) removed the blob file of the transaction '
+                                     'in progress, which then finished: committed revision without blob file',
+    'file-removed-by-late-bookkeeping': 'the blob file of a committed revision was removed by the abort of ANOTHER transaction, whose '
+                                        'dirty_oids bookkeeping ran after the commit lock had been released',
+    'file-left-by-late-bookkeeping': 'a blob file of an aborted transaction remains: its dirty_oids entry was forgotten by the finish / '
+                                     'abort bookkeeping of another transaction that ran after the commit lock had been released',
+    'file-left-by-failed-undo-copy': 'the partly written <oid>/<undo tid>.blob of an undo() whose blob copy failed remains after the abort',
 }
 
 ASSUME = ['TLC results are exhaustive only within the stated constants (1 blob, 1 content atom, <= 2-3 transactions); the '
@@ -185,6 +200,30 @@ def directed(flavour, quick=False, packs_only=False):
         S.append(first + bs.create(()) + bs.append(3, 'a') + bs.consume_fail(3) + bs.append(3, 'b') + bs.commit(end) + bs.commit())
         S.append(first + bs.rewrite(2, 'b') + bs.savepoint() + bs.consume_fail(2) + bs.append(2, 'a') + bs.consume_fail(2) + bs.commit(end))
         S.append(first + bs.rewrite(2, 'b') + bs.savepoint() + bs.append(2, 'a') + bs.consume_fail(2) + bs.rollback(1) + bs.consume_fail(2) + bs.commit(end))
+    # 2PC calls with a foreign transaction at every phase of a commit in progress: rejected without effect
+    for phase in ('begin', 'store', 'vote'):
+        for m in WRONG:
+            for end in ('finish', 'vote') + (('store',) if phase != 'vote' else ()):
+                S.append(first + bs.rewrite(2, 'b') + bs.commit(end, at={phase: bs.wrong(m)}) + bs.append(2, 'a') + bs.commit())
+        S.append(first + bs.create(('b',)) + bs.modify_p('v2') + bs.commit(at={phase: sum((bs.wrong(m) for m in WRONG), [])}) + bs.commit())
+        if flavour in UNDO:
+            S.append(first + bs.other(2, 'b') + bs.undo(0, at={phase: bs.wrong('tpc_abort') + bs.wrong('tpc_finish')}) + bs.undo(0))
+    if flavour in WRAPPERS:
+        # the second writer's abort / finish does its dirty_oids bookkeeping late: at every point of a commit of c1
+        # (before it, at each phase, after it) x how c1's commit ends
+        two = first + bs.create(('b',)) + bs.commit()
+        for end2 in ('abort', 'finish'):
+            for end in ('finish', 'vote', 'store'):
+                for phase in ('begin', 'store', 'vote'):
+                    if not (end == 'store' and phase == 'vote'):
+                        S.append(two + bs.rewrite(3, 'b') + bs.other_tpc(2, 'a', end2) + bs.commit(end, at={phase: bs.late()}) + bs.append(3, 'a') + bs.commit())
+                S.append(two + bs.rewrite(3, 'b') + bs.other_tpc(2, 'a', end2) + bs.late() + bs.commit(end) + bs.commit())
+                S.append(two + bs.create(('a',)) + bs.other_tpc(2, 'a', end2) + bs.commit(end) + bs.late() + bs.rewrite(2, 'b') + bs.commit())
+    if flavour in UNDO:
+        # one write of the blob copy inside undo() fails; afterwards the same undo succeeds
+        S.append(first + bs.other(2, 'b') + bs.undo_copy_fail(0) + bs.undo(0) + bs.undo_copy_fail(0) + bs.undo(0) + bs.append(2, 'a') + bs.commit())
+        S.append(first + bs.undo_copy_fail(0) + bs.undo(0) + bs.undo_copy_fail(0) + bs.undo(0))
+        S.append(first + bs.create(('b',)) + bs.commit() + bs.rewrite(2, 'b') + bs.append(3, 'a') + bs.commit() + bs.undo_copy_fail(0) + bs.undo(0, 'vote') + bs.undo(0))
     # savepoints: rollbacks to every savepoint, twice, new blobs created and un-created, then every end
     for end in ENDS:
         for k in (1, 2):
@@ -257,12 +296,23 @@ def random_script(rng, flavour, nblob):
         if rng.random() < 0.4:
             s += bs.other(rng.choice([1] + blobs[:2]), rng.choice(X + ('v1', 'v2')))
         r = rng.random()
+        if flavour in WRAPPERS and rng.random() < 0.15:
+            s += bs.other_tpc(rng.choice(blobs[:2]), rng.choice(X), rng.choice(('abort', 'finish')))
+        at = {}
+        for phase in ('begin', 'store', 'vote'):
+            if rng.random() < 0.12:
+                at[phase] = bs.wrong(rng.choice(WRONG))
+            elif flavour in WRAPPERS and rng.random() < 0.12:
+                at[phase] = bs.late()
         if r < 0.08:
             s += bs.abort_txn()
         else:
-            s += bs.commit('finish' if r < 0.6 else rng.choice(ENDS[1:]))
+            s += bs.commit('finish' if r < 0.6 else rng.choice(ENDS[1:]), at=at)
+        s += bs.late()
         r = rng.random()
         if r < 0.25 and flavour in UNDO:
+            if rng.random() < 0.15:
+                s += bs.undo_copy_fail(-rng.randint(0, 2))
             s += bs.undo(-rng.randint(0, 2), 'finish' if rng.random() < 0.7 else rng.choice(ENDS[1:]))
         elif r < 0.45:
             s += bs.pack(-rng.randint(0, 3) if rng.random() < 0.85 else rng.randint(1, 9))
@@ -296,6 +346,10 @@ def to_script(sig):
             out.append({'a': name, 'o': int(args[0]), 'x': args[1]})
         elif name == 'UBegin':
             out.append({'a': name, 't': int(args[0])})
+        elif name == 'Wrong':
+            out.append({'a': name, 'm': args[0]})
+        elif name in ('OtherAbort', 'OtherFinish'):
+            out.append({'a': name, 'b': int(args[0]), 'x': args[1]})
         elif name == 'Pack':
             out.append({'a': name, 'T': int(args[0])})
         else:
@@ -433,6 +487,8 @@ def run(ctx):
             jobs.append(('mc', ('design-%s-sp2' % fl, bd.consts(fl, MaxTid=3, MaxSp=2, **rc), 'NextTxn', DESIGN_INV, DESIGN_PROPS, 2, 1500, sc)))
         jobs.append(('mc', ('design-%s-hist' % fl, bd.consts(fl, MaxTid=4 if q else 5, MaxSp=1, KeepOld=(fl == 'mixin'), **rc), 'NextHist',
                             DESIGN_INV, DESIGN_PROPS, 3, 3000, sc)))
+        jobs.append(('mc', ('design-%s-race' % fl, bd.consts(fl, MaxTid=5 if q else 6, MaxSp=1, **rc), 'NextRace',
+                            DESIGN_INV, DESIGN_PROPS, 3, 3000, sc)))
         if not q:
             jobs.append(('mc', ('design-%s-hist-nopack' % fl, bd.consts(fl, MaxTid=6, MaxSp=1, **rc), 'NextHistNoPack',
                                 DESIGN_INV, DESIGN_PROPS, 3, 3000, sc)))
@@ -490,7 +546,8 @@ def run(ctx):
             judge(ctx, out, cov)
     # vacuity: every action of the specification was replayed on each flavour it applies to
     for fl in FLAVOURS:
-        need = [x for x in bd.ALL_ACTIONS if (fl in UNDO or not x.startswith('U')) and (fl != 'wrapfile' or x != 'Pack')]
+        need = [x for x in bd.ALL_ACTIONS if (fl in UNDO or not x.startswith('U')) and (fl != 'wrapfile' or x != 'Pack')
+                and (fl in WRAPPERS or x not in ('OtherAbort', 'OtherFinish', 'Late'))]
         miss = [x for x in need if not cov['actions'][fl].get(x)]
         if miss and not cov['mismatches']:
             raise RuntimeError('%s: actions never replayed: %s' % (fl, miss))
